@@ -25,6 +25,8 @@ mod system_command_spawning;
 mod system_event_reader;
 mod utils;
 mod world_reactor;
+#[cfg(bevy_cobweb_verif)]
+pub mod verif;
 
 //API exports
 pub(crate) use command_queue::*;
